@@ -146,6 +146,7 @@ func init() {
 	reg("uIsIdLeaf", &utypes.UIsIdLeaf{})
 	reg("uSafeMsgLeaf", &utypes.USafeMsgLeaf{})
 	reg("uSafeDetLeaf", &utypes.USafeDetLeaf{})
+	reg("uKeyLeaf", &utypes.UKeyLeaf{})
 	reg("uProtoLeaf", &errorspb.TestError{})
 	reg("uWrapU", &utypes.UWrapU{Err: base})
 	reg("uWrapC", &utypes.UWrapC{Err: base})
